@@ -21,6 +21,31 @@ theorem in_downtime_iff (now : Int) (dts : List Dt) :
   unfold inDowntime
   simp only [List.any_eq_true, Bool.and_eq_true, Bool.not_eq_eq_eq_not, Bool.not_true, isInEffect_iff]
 
+/-- **in_downtime_iff_run.**  In every state reached by a well-formed run, at every instant `now` not before
+    the last operation: the checkable is in downtime exactly when some existing downtime is fixed with
+    `start ≤ now < end`, or flexible, has taken effect at some `trigger ≤ now` and `now < trigger + duration`
+    (the lower bound `trigger ≤ now` is not part of `IsInEffect`; it holds of reachable states). -/
+theorem in_downtime_iff_run (k : Kind) (ops : List Op) (hw : WF 990 ops) (now : Int)
+    (hnow : endTime 990 ops ≤ now) :
+    inDowntime now (run (initSt k) ops).dts = true ↔
+      ∃ d ∈ (run (initSt k) ops).dts, d.removed = false ∧
+        ((d.fixed = true ∧ d.start ≤ now ∧ now < d.fin) ∨
+         (d.fixed = false ∧ 0 < d.trigger ∧ d.trigger ≤ now ∧ now < d.trigger + d.duration)) := by
+  obtain ⟨sp, h⟩ := tinv_run_at ops (specInit k) (initSt k) 990 (tinv_init k) hw
+  rw [in_downtime_iff]
+  constructor
+  · rintro ⟨d, hd, hr, hwin⟩
+    refine ⟨d, hd, hr, ?_⟩
+    rcases hwin with hwin | ⟨hf, h0, hlt⟩
+    · exact Or.inl hwin
+    · have hi := h.sinv.2.2 d hd
+      exact Or.inr ⟨hf, by have := hi.1; omega, by have := hi.2.1; omega, hlt⟩
+  · rintro ⟨d, hd, hr, hwin⟩
+    refine ⟨d, hd, hr, ?_⟩
+    rcases hwin with hwin | ⟨hf, h0, _, hlt⟩
+    · exact Or.inl hwin
+    · exact Or.inr ⟨hf, by omega, hlt⟩
+
 /-- **depth_eq_count.**  The downtime depth is the number of downtimes in effect, and the checkable is
     in downtime iff the depth is positive. -/
 theorem depth_eq_count (now : Int) (dts : List Dt) :
@@ -147,6 +172,32 @@ theorem expired_removed (st : St) (now : Int) (f : Bool) :
   refine ⟨h1, fun hr harm => ?_⟩
   simp [cleanupDue, hr, harm] at h1
   exact h1
+
+/-- **expired_removed_run.**  Without the hypothesis on the cleanup timer: after a pump at `now` at the end of
+    any well-formed run, every downtime that still exists is not over — `now ≤ end` for a fixed or
+    never-triggered one, `now ≤ trigger + duration` for a triggered flexible one (the cleanup timer of
+    every existing downtime is armed at its cleanup point in every reachable state: `AInv`). -/
+theorem expired_removed_run (k : Kind) (ops : List Op) (now : Int) (f : Bool)
+    (hw : WF 990 (ops ++ [.pump now f])) :
+    ∀ d ∈ (run (initSt k) (ops ++ [.pump now f])).dts, d.removed = false →
+      ((d.fixed = true ∨ d.trigger = 0) → now ≤ d.fin) ∧
+      (d.fixed = false → d.trigger ≠ 0 → now ≤ d.trigger + d.duration) := by
+  obtain ⟨T, sp, h⟩ := tinv_run _ (specInit k) (initSt k) 990 (tinv_init k) hw
+  intro d hd hr
+  have harm := (h.ainv.2 d hd).2 hr
+  have hb := (h.ainv.2 d hd).1
+  rw [run_snoc] at hd
+  have hle := (expired_removed (run (initSt k) ops) now f d hd).2 hr harm
+  unfold cleanupPoint at hle
+  constructor
+  · intro hc
+    rcases hc with hc | hc
+    · simpa [hc] using hle
+    · have : d.trigger ≤ 0 := by omega
+      simpa [this] using hle
+  · intro hf h0
+    have : ¬ d.trigger ≤ 0 := by have := hb.2.1; omega
+    simpa [hf, this] using hle
 
 /-! ### Ownership -/
 
@@ -279,18 +330,53 @@ theorem flexible_trigger_exact (k : Kind) (ops : List Op) (hw : WF 990 ops) (s :
     rw [ids_result]; exact h.wfl.1
   exact eq_of_id hnd' hy hd' (by rw [hyid, hid])
 
+/-! ### The recorded trigger time and the window — partial, with the counterexample (F-C05e) -/
+
+/-- **trigger_not_before_start_partial.**  What each path writes into an unset trigger time: a fixed downtime
+    started by `Downtime::Start` / the start timer records `max(start, entry) ≥ start`; a flexible downtime
+    created on an existing problem records `max(start, entry, last_state_change) ≥ start`; a downtime reached
+    by `TriggerDowntime(t)` — non-OK result with `t = execution_end`, trigger chain with the trigger time of
+    the chain's root — records `t` itself, which is `≥ start` exactly when `start ≤ t`: the hypothesis the
+    full statement "a set trigger time is never before start_time" lacks. -/
+theorem trigger_not_before_start_partial (d : Dt) (h0 : d.trigger = 0) :
+    d.start ≤ (startSelf d).trigger ∧
+    (∀ lsc, d.start ≤ (trigSelf (max (max d.start d.entry) lsc) d).trigger) ∧
+    (∀ t, (trigSelf t d).trigger = t) ∧ (∀ t, d.start ≤ t → d.start ≤ (trigSelf t d).trigger) := by
+  refine ⟨?_, ?_, ?_, ?_⟩
+  · simp only [startSelf, trigSelf, noteTriggered, markTriggered, noteStarted, h0]; simp; omega
+  · intro lsc; simp only [trigSelf, noteTriggered, markTriggered, h0]; simp; omega
+  · intro t; simp [trigSelf, noteTriggered, markTriggered, h0]
+  · intro t ht; simp [trigSelf, noteTriggered, markTriggered, h0]; exact ht
+
+/-- F-C05e: flexible downtime [1010, 1030] of 5 s; a CRITICAL result executed at 1004 is processed at 1010. -/
+def ceEarlyResult : List Op :=
+  [.result 0 1000 1000, .add ⟨1, false, 1010, 1030, 5, 0, false⟩ 1001, .result 2 1004 1010]
+
+/-- **trigger_not_before_start_counterexample.**  "The trigger time a downtime records lies inside its window"
+    is false of the model, on a well-formed run: the downtime records 1004 < start = 1010, has requested
+    DowntimeStart, and the checkable is not in downtime at 1010 (nor at any later instant). -/
+theorem trigger_not_before_start_counterexample :
+    WF 990 ceEarlyResult ∧
+    (∃ d ∈ (run (initSt .service) ceEarlyResult).dts, d.trigger = 1004 ∧ d.start = 1010 ∧ d.starts = 1) ∧
+    depth 1010 (run (initSt .service) ceEarlyResult).dts = 0 ∧
+    specTrace (specInit .service) (trace (initSt .service) ceEarlyResult) = some .triggerNotBeforeStart := by
+  refine ⟨by decide, by decide, by decide, by decide⟩
+
 /-! ### The whole trace -/
 
 /-- **model_trace_meets_spec_partial.**  For every well-formed operation sequence (the clock does not run
     backwards, check results carry an execution end in `(0, now]`, durations are not negative) from a
     never-checked checkable, the trace of the model — operations with the model's own observations —
     satisfies the executable specification, evaluated through the specification's own bookkeeping, on
-    every clause except the two that are false of the code (`coreMask`, IcingaProofs/C05/Whole.lean):
+    every clause except the three that are false of the code (`coreMask`, IcingaProofs/C05/Whole.lean):
     existence, dropped result, in-downtime iff, depth, trigger write-once, trigger only in window,
-    flexible trigger (exact time), trigger cascade, start once, fixed started in window, end once,
-    removed event, expired removed, owner protected.  The full statement
-    `specTrace (specInit k) (trace (initSt k) ops) = none` is false of the code: F-C05c violates
-    `started_when_triggered` and `end_has_start` (see `started_counterexample`). -/
+    flexible trigger (exact time), trigger cascade, start once, DowntimeStart for every flexible downtime
+    that took effect (`started_when_triggered`), fixed started in window, end once, no DowntimeEnd of a
+    flexible downtime without its DowntimeStart (`end_has_start`), removed event, expired removed, owner
+    protected.  The full statement `specTrace (specInit k) (trace (initSt k) ops) = none` is false of the
+    code: F-C05c violates `fixed_started_when_triggered` and `fixed_end_has_start` (see
+    `started_counterexample`), F-C05e violates `trigger_not_before_start` (see
+    `trigger_not_before_start_counterexample`). -/
 theorem model_trace_meets_spec_partial (k : Kind) (ops : List Op) (hw : WF 990 ops) :
     specTraceM coreMask (specInit k) (trace (initSt k) ops) = none :=
   trace_core ops (specInit k) (initSt k) 990 (tinv_init k) hw
@@ -346,8 +432,23 @@ example : specTraceM coreMask (specInit .service)
     = some .depthEqCount := by decide
 
 /-- … and the only thing it hides on the F-C05c scenario is the F-C05c clause. -/
-example : specTrace (specInit .service) (trace (initSt .service) ceNeverStarted) = some .startedWhenTriggered ∧
+example : specTrace (specInit .service) (trace (initSt .service) ceNeverStarted) = some .fixedStartedWhenTriggered ∧
     specTraceM coreMask (specInit .service) (trace (initSt .service) ceNeverStarted) = none := by decide
+
+/-- `in_downtime_iff_run` / `expired_removed_run`: the chained scenario, observed at its last instant; both
+    downtimes are in effect there, and after a pump at 1013 the flexible one (1010 + 3) is still there. -/
+example : endTime 990 exampleOps = 1010 ∧ inDowntime 1010 (run (initSt .host) exampleOps).dts = true := by decide
+
+example : WF 990 (exampleOps ++ [.pump 1013 true]) ∧
+    ((run (initSt .host) (exampleOps ++ [.pump 1013 true])).dts.map (fun d => (d.id, d.removed))) =
+      [(1, false), (2, false)] := by decide
+
+/-- `started_when_triggered` is inside the proved mask and not vacuous: a flexible downtime that has taken
+    effect without any DowntimeStart request is rejected … -/
+example : specTraceM coreMask (specInit .service)
+    [(.result 2 1000 1000, ⟨1, 0, false, [], []⟩),
+     (.add ⟨1, false, 1000, 1020, 5, 0, false⟩ 1001, ⟨1, 1, true, [(1, 1001)], [(3, 1, 1)]⟩)]
+    = some .startedWhenTriggered := by decide
 
 /-- … and accepts the model's own trace of the chained scenario. -/
 example : specTrace (specInit .host) (trace (initSt .host) (exampleOps ++ [.pump 1030 true])) = none := by decide
